@@ -109,7 +109,15 @@ fn cast_binary_op_q(
             if left.can_cast_to(&TypeQualifier::PercentInteger)
                 && right.can_cast_to(&TypeQualifier::PercentInteger)
             {
-                Some(TypeQualifier::PercentInteger)
+                if op == Operator::Modulo
+                    && (left != TypeQualifier::PercentInteger
+                        || right != TypeQualifier::PercentInteger)
+                {
+                    // the remainder of operands wider than INTEGER may need a LONG
+                    Some(TypeQualifier::AmpersandLong)
+                } else {
+                    Some(TypeQualifier::PercentInteger)
+                }
             } else {
                 None
             }
